@@ -7,21 +7,40 @@ MODE = 'trace'
 THEOREMS = ['Tbox.C02.C02_callbacks_legit', 'Tbox.C02.C02_never_early', 'Tbox.C02.C02_no_fire_after_disable',
             'Tbox.C02.C02_records_belong_to_enabled', 'Tbox.C02.C02_deadline_order', 'Tbox.C02.C02_oneshot_once',
             'Tbox.C02.C02_oneshot_disabled_in_callback', 'Tbox.C02.C02_no_skip', 'Tbox.C02.C02_reenable_fresh', 'Tbox.C02.C02_destroyed_never_fires',
-            'Tbox.C02.exec_inv']
+            'Tbox.C02.exec_inv',
+            # round 2: termination of a pass, exact catch-up count
+            'Tbox.C02.C02_pos_intervals', 'Tbox.C02.C02_fire_decreases', 'Tbox.C02.C02_pass_terminates', 'Tbox.C02.C02_pass_progress',
+            'Tbox.C02.C02_pass_terminates_counterexample', 'Tbox.C02.C02_pass_endless_counterexample', 'Tbox.C02.C02_catchup_count',
+            # round 2: TimerPool layer
+            'Tbox.C02.C02_pool_doAfter_once', 'Tbox.C02.C02_pool_doEvery_nth', 'Tbox.C02.C02_pool_all_timers', 'Tbox.C02.C02_pool_cancel',
+            'Tbox.C02.C02_pool_cleanup', 'Tbox.C02.C02_pool_stale_token', 'Tbox.C02.C02_pool_callbacks_keep_inv', 'Tbox.C02.C02_pool_doAt',
+            'Tbox.C02.fireR_fst']
 SOURCES = vlib.EVENT_SOURCES + vlib.BASE_SOURCES + ['modules/eventx/timer_pool.cpp']
 FLAVOUR = 'asan'
 LIBS = ['-ldl']
 BATCH = 200
-TRUSTED = ['model lean/TboxModel/C02/Model.lean hand-written from common_loop_timer.cpp + timer_event_impl.cpp; the tie is the trace acceptor '
-           '(every callback the real loop makes must be an enabled fire step of the model, passes must end with nothing due, '
-           'all API results and isEnabled() vectors must agree)',
+TRUSTED = ['model lean/TboxModel/C02/Model.lean hand-written from common_loop_timer.cpp + timer_event_impl.cpp + eventx/timer_pool.cpp; the tie is '
+           'the trace acceptor (every callback the real loop makes must be an enabled fire step of the model, passes must end with nothing due, '
+           'all API results, the return values of the calls made inside callbacks and all isEnabled() vectors must agree); the acceptor runs the '
+           'same functions the theorems are about (Pool.doAfter/doEvery/doAt/cancel/cleanup, fireR with theorem fireR_fst)',
            'std::push_heap/pop_heap/make_heap (libstdc++) keep the heap property; deleteTimer removes the zeroed record (all live deadlines > 0)',
-           'virtual monotonic clock by clock_gettime interposition in the harness (harness/vtime.h)']
-ASSUMPTIONS = ['interval >= 1 ms (the property quantifies over d >= 1)', 'a timer object is not destroyed from inside its own callback',
-               'uint64 millisecond arithmetic does not overflow']
-RULE = ('scripts of timer objects (callback bodies = lists of init/enable/disable/destroy on any object) + API ops + clock advances with one '
-        'loop pass each, on the real epoll/select loop under a virtual clock; non-trivial = at least one pass served >= 2 callbacks or a '
-        'callback changed another armed timer (driver tags tie/catchup/cb-removed-other/cb-armed-other); distinct = distinct op text')
+           'virtual monotonic and system clocks by clock_gettime interposition in the harness (harness/vtime.h)',
+           'TimerPool cabinet rendered by its contract as repaired (C08_cab_lookup, C08 package): token = serial of the TimerEvent, never reissued; '
+           'the deferred deletes of TimerPool (run()/runNext([timer]{delete timer})) are modelled as immediate: between free(token) and the delete '
+           'nothing can reach the disabled object',
+           'exitLoop(wait) builds its exit timer through the same newTimerEvent/initialize(kOneshot)/enable path as any TimerEvent; it is not '
+           'driven separately by the harness (its callback is internal, the order in which it fires is not observable)']
+ASSUMPTIONS = ['interval >= 1 ms (the property quantifies over d >= 1; C02_pass_endless_counterexample: interval 0 persistent never leaves the pass)',
+               'a timer object is not destroyed from inside its own callback (TimerPool defers that delete itself)',
+               'uint64 millisecond arithmetic does not overflow; doAt only for time points 1..100000 ms ahead of the system clock '
+               '(a non-positive difference reaches addTimer as a huge unsigned interval)',
+               'TimerPool theorems doAfter_once/doEvery_nth/all_timers: timers are used only through the TimerPool (puSteps, decidable)']
+RULE = ('scripts of timer objects (callback bodies = lists of init/enable/disable/destroy/newTimerEvent on any object, nested scripts for timers '
+        'created inside callbacks) + API ops + clock advances with one loop pass each, on the real epoll/select loop under a virtual clock; '
+        'TimerPool cases: doAfter/doEvery/doAt/cancel/cleanup from outside and inside callbacks (re-arming, self-cancel, cleanup inside a '
+        'callback), system-clock jumps; non-trivial = at least one pass served >= 2 callbacks or a callback changed another armed timer or made '
+        'a TimerPool call (driver tags tie/catchup/cb-removed-other/cb-armed-other/cb-doAfter/cb-doEvery/cb-cancel/cb-cleanup/cb-new); '
+        'distinct = distinct op text')
 HARNESS_ENV = None
 
 
@@ -30,13 +49,15 @@ def gen_case(rng, nops):
     ivs = rng.sample([1, 2, 3, 5, 7, 10, 20, 50], rng.choice([1, 2, 3]))   # few distinct intervals => many shared deadlines
     ops = ['engine ' + rng.choice(['epoll', 'select'])]
 
-    def act(self):
-        k = rng.randrange(nobj)
+    def act(self, depth=0):
+        k = rng.randrange(nobj + (2 if depth else 0))       # nested scripts also aim at objects created later
         r = rng.random()
         if r < 0.3: return 'e%d' % k
         if r < 0.6: return 'd%d' % k
-        if r < 0.85: return 'i%d:%d:%s' % (k, rng.choice(ivs), rng.choice('op'))
-        return 'x%d' % k if k != self else 'd%d' % k
+        if r < 0.82: return 'i%d:%d:%s' % (k, rng.choice(ivs), rng.choice('op'))
+        if r < 0.88 and depth < 2:                          # newTimerEvent inside a callback, with its own callback script
+            return 'n[%s]' % ','.join(act(None, depth + 1) for _ in range(rng.choice([0, 1, 2])))
+        return 'x%d' % k if (self is not None and k != self) else 'd%d' % k
 
     for j in range(nobj):
         n = rng.choice([0, 0, 1, 1, 2, 3])
@@ -59,17 +80,40 @@ def gen_case(rng, nops):
     return ops
 
 
+def pool_script(rng, ivs, ntok, depth=0, under_every=False):
+    """callback of a pool timer: cancel any token (also its own / not yet issued ones), cleanup, create pool timers
+    (re-arming pattern); never a doEvery below a doEvery (the number of timers would explode)"""
+    items = []
+    for _ in range(rng.choice([0, 0, 1, 1, 2, 3] if depth == 0 else [0, 1, 1, 2])):
+        r = rng.random()
+        if r < 0.45: items.append('c%d' % rng.randrange(ntok + 3))
+        elif r < 0.53: items.append('z')
+        elif r < 0.85 and depth < 3:
+            items.append('a%d[%s]' % (rng.choice(ivs), pool_script(rng, ivs, ntok + 1, depth + 1, under_every)))
+        elif depth < 2 and not under_every:
+            items.append('v%d[%s]' % (rng.choice(ivs), pool_script(rng, ivs, ntok + 1, depth + 1, True)))
+        else: items.append('c%d' % rng.randrange(ntok + 3))
+    return ','.join(items) or ('-' if depth == 0 else '')
+
+
 def gen_pool_case(rng, nops):
-    """TimerPool case: doAfter/doEvery with callbacks that cancel pool timers (also themselves), cancel, cleanup"""
+    """TimerPool case: doAfter/doEvery/doAt with callbacks that cancel pool timers (also themselves), call cleanup or
+    create new pool timers; cancel, cleanup; jumps of the system clock"""
     ops = ['engine ' + rng.choice(['epoll', 'select'])]
     ivs = rng.sample([1, 2, 3, 5, 7, 10], rng.choice([1, 2, 3]))
     made = 0
+    wall = 0
     for _ in range(nops):
         r = rng.random()
-        if r < 0.35 or made == 0:
-            sc = ','.join('c%d' % rng.randrange(made + 3) for _ in range(rng.choice([0, 0, 1, 1, 2]))) or '-'
-            ops.append('%s %d %s' % (rng.choice(['pafter', 'pevery']), rng.choice(ivs), sc)); made += 1
-        elif r < 0.8: ops.append('adv %d' % rng.choice([0, 1, 1, 2, 3, 5, 7, 10, 21]))
+        if r < 0.30 or made == 0:
+            under = rng.random() < 0.5
+            ops.append('%s %d %s' % ('pevery' if under else 'pafter', rng.choice(ivs), pool_script(rng, ivs, made, 0, under))); made += 1
+        elif r < 0.36:
+            ops.append('pat %d %s' % (max(0, wall + rng.choice([-3, 0, 1, 2, 5, 9])), pool_script(rng, ivs, made))); made += 1
+        elif r < 0.40:
+            d = rng.choice([-50, -7, -1, 1, 4, 60]); ops.append('wall %d' % d); wall += d
+        elif r < 0.8:
+            d = rng.choice([0, 1, 1, 2, 3, 5, 7, 10, 21]); ops.append('adv %d' % d); wall += d
         elif r < 0.95: ops.append('pcancel %d' % rng.randrange(made + 2))
         else: ops.append('pcleanup')
     return ops
@@ -97,34 +141,47 @@ def gen_heap_case(rng):
 
 def gen(rng, tier):
     n = 400 if tier == 'quick' else 6000
-    yield ['new -', 'init 0 0 o', 'en 5', 'frob', 'new x0', 'init 0 5 q', 'adv x']           # malformed stream
+    yield ['new -', 'init 0 0 o', 'en 5', 'frob', 'new x0', 'init 0 5 q', 'adv x', 'new n[x1]', 'new n[', 'new e0,', 'new c0', 'new n[]]']   # malformed stream
     yield ['new -', 'init 0 10 o', 'en 0', 'adv 9', 'adv 1', 'adv 100', 'en 0', 'adv 10']   # one-shot: not early, once, re-enable fresh
     yield ['new -', 'init 0 3 p', 'en 0', 'adv 10', 'adv 2', 'dis 0', 'adv 50']             # late wake-up: 3 catch-up firings
     yield ['engine select', 'new d1', 'new -', 'init 0 5 p', 'init 1 5 p', 'en 0', 'en 1', 'adv 5', 'adv 5']  # same deadline; one disables the other
     yield ['new x1', 'new -', 'new -', 'init 0 5 o', 'init 1 5 o', 'init 2 6 o', 'en 2', 'en 1', 'en 0', 'adv 6']  # destroy a due timer from a callback; heap middle removal
+    yield ['new i0:4:p,e0', 'init 0 3 p', 'en 0', 'adv 3', 'adv 3', 'adv 1', 'init 0 2 o', 'adv 2', 'del 0', 'adv 9']  # re-initialise while enabled (API + own callback); destroy while enabled
+    yield ['new n[e0,d0],i1:2:o,e1', 'init 0 3 p', 'en 0', 'adv 3', 'adv 2', 'adv 1', 'adv 3']   # a callback creates, initialises and arms a new TimerEvent
     # TimerPool (eventx/timer_pool.cpp): doAfter / doEvery / cancel (also from callbacks, also of itself) / cleanup
     yield ['pafter 5 -', 'pevery 3 c0', 'adv 2', 'adv 1', 'adv 2', 'pcancel 0', 'pcancel 1', 'pcancel 1', 'adv 10', 'pcancel 7']
     yield ['pevery 2 c0', 'pafter 4 c1', 'pafter 4 c2', 'adv 4', 'adv 4', 'pcleanup', 'pafter 1 -', 'adv 1', 'pcancel 3']
+    yield ['pafter 3 a3[a3[]]', 'adv 3', 'adv 3', 'adv 2', 'adv 1', 'adv 5']              # re-arming pattern: doAfter inside a doAfter callback
+    yield ['pafter 2 z,a2[]', 'pevery 1 -', 'adv 2', 'adv 1', 'adv 1', 'pcancel 0', 'pcancel 2']   # cleanup + doAfter inside a doAfter callback: the wrapper's stale token must not hit the new timer
+    yield ['pevery 2 c0,c0', 'pafter 2 c1,c1,c0', 'adv 2', 'adv 2', 'pcancel 0', 'pcancel 1']     # self-cancel (returns 1, then 0), doEvery and doAfter
+    yield ['pevery 3 a1[c0]', 'adv 3', 'adv 1', 'adv 3', 'adv 9']                                # a one-shot created by a periodic callback cancels its creator
+    yield ['wall 50', 'pat 60 -', 'wall -30', 'adv 9', 'adv 1', 'pat 30 c0', 'pat 31 -', 'wall 1000', 'adv 1', 'pat 5 -', 'pat 200000 -']   # doAt: system clock differences, fired by the monotonic clock
+    yield ['pevery 1 -', 'pafter 3 -', 'adv 10', 'pcleanup', 'adv 10', 'pevery 2 z', 'adv 2', 'adv 2']
     for _ in range(n):
         yield gen_case(rng, rng.choice([6, 12, 25, 50]))
     for _ in range(n // 4):
         yield gen_heap_case(rng)
-    for _ in range(n // 4):
+    for _ in range(n // 3):
         yield gen_pool_case(rng, rng.choice([6, 12, 25]))
     yield ['pafter 5 -', 'new -']     # a case never mixes TimerPool and plain TimerEvent ops: bad-op on both sides
-    yield ['new -', 'pevery 5 -', 'new c0']
+    yield ['new -', 'pevery 5 -', 'new c0', 'wall 3']
+    yield ['pafter 0 -', 'pevery 5 e0', 'pafter 5 a0[]', 'pafter 5 a5', 'pafter 5 v5[x]', 'pat x -', 'wall +5', 'wall', 'pafter 3 z,', 'pafter 2 a2[],c0']
 
 
 def nontrivial(ops, model_lines):
     tags = ' '.join(l for l in model_lines if l.startswith('B '))
-    return 1 if any(t in tags for t in ('tie', 'catchup', 'cb-removed-other', 'cb-armed-other', 'passN')) else None
+    return 1 if any(t in tags for t in ('tie', 'catchup', 'cb-removed-other', 'cb-armed-other', 'passN', 'cb-doAfter', 'cb-doEvery',
+                                        'cb-cancel', 'cb-cleanup', 'cb-new')) else None
 
 
-LEVEL_TEXT = ('Lean 4 theorems over a model of the loop timer core (addTimer/deleteTimer/handleExpiredTimers + TimerEventImpl): an inductive '
-              'invariant over every execution (any objects, callback scripts, clock advances, tie-breaks) yields never-early, no-skip, '
-              'deadline order, one-shot-once, never-after-disable/destroy, fresh interval on re-enable; tied to the real loop on every run '
-              'by a trace acceptor replaying the callbacks of the real epoll loop (virtual clock) as model steps')
+LEVEL_TEXT = ('Lean 4 theorems over a model of the loop timer core (addTimer/deleteTimer/handleExpiredTimers + TimerEventImpl) and of TimerPool: an '
+              'inductive invariant over every execution (any objects, callback scripts incl. timers created inside callbacks, clock advances, '
+              'tie-breaks) yields never-early, no-skip, deadline order, one-shot-once, never-after-disable/destroy, fresh interval on re-enable; '
+              'a measure argument yields termination of every pass and the exact catch-up count for intervals >= 1; a per-timer invariant yields '
+              'doAfter exactly-once / doEvery n-th not before t+n*d / cancel / cleanup / stale tokens for the TimerPool; tied to the real loop on '
+              'every run by a trace acceptor replaying the callbacks of the real epoll/select loop (virtual clocks) as model steps')
 LEVEL_NOTE = ('trusted: Lean kernel, hand-written model + trace-acceptor tie (coverage bounded by the generator, measured), libstdc++ heap algorithms, '
-              'clock interposition; sub-millisecond earliness and the select engine\'s tv_usec rounding are outside a millisecond clock')
-TECHNIQUE = 'Lean 4 invariant proof over all executions of a timer model + trace-acceptor correspondence with the real loop'
+              'clock interposition, the cabinet contract (proved in C08); sub-millisecond earliness and the select engine\'s tv_usec rounding are '
+              'outside a millisecond clock; exitLoop(wait) exit timer not driven separately')
+TECHNIQUE = 'Lean 4 invariant + measure proofs over all executions of a timer model + trace-acceptor correspondence with the real loop'
 DESIGN_REF = 'DESIGN.md §6 C02'
